@@ -141,12 +141,16 @@ CLAIMS = {
  "C04": ("Coq theorems (Props/C04.v): every observation of the one-shot functions, of call histories, of extended-output "
          "operation sequences and of subtree chaining values is equal for any two platform records satisfying PlatformOK "
          "(corollaries of C01/C02/C03/C09), and PlatformOK holds for the modelled SSE2/SSE4.1/AVX2/AVX-512 kernels (C05) and "
-         "for portable kernels at every degree. Correspondence: one case file and one expected-output set against 3 Rust "
+         "for portable kernels at every degree; the dispatch layer itself is TRANSLATED from src/platform.rs (enum Platform, detect(), the "
+         "*_detected helpers, simd_degree, compress_in_place, compress_xof, hash_many, xof_many, the MAX_SIMD_DEGREE ladders, the mod table of "
+         "lib.rs) and c/blake3_dispatch.c (the five ladders) into gen/GenPlatform.v and proved to select, in every x86-64 build flavour and at "
+         "every C feature mask, kernels whose platform record is PlatformOK, with detect() returning the highest available level (C04_src_*, "
+         "26 theorems). Correspondence: one case file and one expected-output set against 3 Rust "
          "build flavours (assembly, prefer_intrinsics, pure) x every platform forced through the hook x debug/release; "
          "thorough adds the stock no_* feature builds; the kernel implementations actually exercised are read back from "
          "the build scripts' output and all four (asm / Rust intrinsics / C AVX-512 intrinsics / portable) must be reached.",
-         "Partial: build.rs and cfg selection are observed, not modelled; a no-default-features build cannot be driven by the std-based harness.",
-         "Coq corollary of the spec-equality theorems + multi-flavour correspondence"),
+         "Partial: build.rs (the cfg flag sets of the flavours) is hand-modelled and observed, not translated; a no-default-features build cannot be driven by the std-based harness.",
+         "Coq corollary of the spec-equality theorems + translated dispatch layer proved to pick PlatformOK kernels + multi-flavour correspondence"),
  "C07": ("Coq theorems (Props/C07.v): every index / slice bound / ArrayVec push of the modelled glue is an assert of the model, "
          "so the Ok of C01/C02/C03/C09 states that no index is out of range for any input; kernel-model footprints (exactly "
          "one 32-byte CV per input, exactly 64 bytes per xof block, fill writes exactly n bytes); for ANY update history the "
